@@ -7,7 +7,8 @@ import re
 
 import verif
 
-RULE = ("sequences of 1-4 raw frames fed to the real ProcessPacketData of tcp (flags wiring and SYN wiring), icmp/udp and "
+RULE = ("sequences of 1-4 raw frames (half of them through a ring of 1-4 REUSED receive buffers, as the zero-copy AF_PACKET "
+        "ring hands out memory; the rest in fresh buffers) fed to the real ProcessPacketData of tcp (flags wiring and SYN wiring), icmp/udp and "
         "arp, Ethernet and raw-IP link modes; frame families: valid reply, truncated, one length/size/type field set to a "
         "boundary value, IP-in-IP, Ethernet-in-Ethernet, fragments, other protocols/ethertypes/802.3 lengths, malformed "
         "IP/TCP options, IP total-length variants, ARP with every address-size pattern incl. uint8 wrap-around, random "
@@ -174,8 +175,9 @@ def minimise(ctx, row, i, key):
     """Shortest sub-sequence ending in frame i that still shows a violation with the same key. Also returns a
     two-frame sequence in which frame i yields a DIFFERENT record than it yields alone (left-over state), if any."""
     fr = row["frames"]
-    cands = [[fr[i]]] + [[fr[j], fr[i]] for j in range(i)] + [fr[:i + 1]]
-    rows = run_sequences(ctx, [{"kind": row["kind"], "vpn": row["vpn"], "frames": c} for c in cands], "min")
+    ring = row.get("ring", 0)
+    cands = [([fr[i]], ring)] + [([fr[j], fr[i]], r) for j in range(i) for r in sorted({ring, min(ring, 1)})] + [(fr[:i + 1], ring)]
+    rows = run_sequences(ctx, [{"kind": row["kind"], "vpn": row["vpn"], "ring": r, "frames": c} for c, r in cands], "min")
     best, stale = None, None
     for r in rows:
         v = first_violation(r)
@@ -198,7 +200,8 @@ def report(ctx, row, i, why, seen):
         reason = why2[1]
     path = ctx.write_replay(key.replace(":", "-"), {
         "property": "C06", "what": reason,
-        "input": {"kind": small["kind"], "vpn": small["vpn"], "frames": small["frames"][:j + 1], "failing_frame": j},
+        "input": {"kind": small["kind"], "vpn": small["vpn"], "ring": small.get("ring", 0),
+                  "frames": small["frames"][:j + 1], "failing_frame": j},
         "observed": small["obs"][:j + 1], "replay_cmd": "bin/check C06 --replay <this file>"})
     ctx.findings.append({"key": key, "what": reason, "replay": path})
     skey = "stale:" + row["kind"]
@@ -209,7 +212,8 @@ def report(ctx, row, i, why, seen):
                 "alone it is reported as %s" % (nf(r["obs"][-1]), nf(alone)))
         path = ctx.write_replay(skey.replace(":", "-"), {
             "property": "C06", "what": what,
-            "input": {"kind": r["kind"], "vpn": r["vpn"], "frames": r["frames"], "failing_frame": len(r["frames"]) - 1},
+            "input": {"kind": r["kind"], "vpn": r["vpn"], "ring": r.get("ring", 0), "frames": r["frames"],
+                      "failing_frame": len(r["frames"]) - 1},
             "observed": r["obs"], "alone": alone, "replay_cmd": "bin/check C06 --replay <this file>"})
         ctx.findings.append({"key": skey, "what": what, "replay": path})
 
@@ -260,7 +264,7 @@ def run(ctx):
             rows += ctx.read_jsonl(os.path.join(ctx.work, "cases.jsonl"))
     for r in rows:
         for i, o in enumerate(r["obs"]):
-            cls = "%s/%s/%s/%s" % (r["kind"], "raw-ip" if r["vpn"] else "eth", r["classes"][i],
+            cls = "%s/%s/%s%s/%s" % (r["kind"], "raw-ip" if r["vpn"] else "eth", r["classes"][i], "+ring" if r.get("ring") else "",
                                     ["none", "record", "error", "crash", "multi"][o["k"]])
             key = hashlib.md5((r["kind"] + str(r["vpn"]) + r["frames"][i]).encode()).digest()
             ctx.count(cls, key, nontrivial=not (o["k"] == 2 and o["err"] in (1, 2) and i == 0 or
@@ -311,7 +315,7 @@ def replay(ctx, path):
     if not ctx.harness_build("c06"):
         return 1
     i = r["input"]
-    rows = run_sequences(ctx, [{"kind": i["kind"], "vpn": i["vpn"], "frames": i["frames"]}], "replay")
+    rows = run_sequences(ctx, [{"kind": i["kind"], "vpn": i["vpn"], "ring": i.get("ring", 0), "frames": i["frames"]}], "replay")
     if not rows:
         print("replay: the harness did not run")
         return 1
